@@ -108,15 +108,42 @@ Definition expected_getitem_args : list (Z -> Z * option Z * bool) :=
     fun offset => ((offset + 1), None, true) ].
 Local Close Scope Z_scope.
 
-(* the statement that directly follows the (top-level) call [f] *)
-Fixpoint after_call (f : string) (l : list stm) : option stm :=
+(* the top-level statements between the call [f] and the next call [g] *)
+Fixpoint upto_call (g : string) (l : list stm) : option (list stm) :=
   match l with
   | [] => None
-  | SEv (Call g) :: r =>
-      if String.eqb g f then match r with x :: _ => Some x | [] => None end
-      else after_call f r
-  | _ :: r => after_call f r
+  | SEv (Call h) :: r =>
+      if String.eqb h g then Some []
+      else match upto_call g r with Some x => Some (SEv (Call h) :: x) | None => None end
+  | x :: r => match upto_call g r with Some y => Some (x :: y) | None => None end
   end.
+Fixpoint between_calls (f g : string) (l : list stm) : option (list stm) :=
+  match l with
+  | [] => None
+  | SEv (Call h) :: r =>
+      if String.eqb h f then upto_call g r else between_calls f g r
+  | _ :: r => between_calls f g r
+  end.
+
+(* no return / break / continue, no raise and no call anywhere inside: the
+   statements can only compute locals (loops, tests, temporaries) and fall
+   through to what follows *)
+Fixpoint falls_through (s : stm) : bool :=
+  let go := fix go (l : list stm) : bool :=
+              match l with [] => true | x :: r => falls_through x && go r end in
+  match s with
+  | SEv (Call _) => false
+  | SEv _ => true
+  | SRaise _ => false
+  | SExit => false
+  | SIf a b => go a && go b
+  | SLoop b => go b
+  | STry b hs o f =>
+      go b && go o && go f &&
+      (fix goh (hs : list (string * list stm)) : bool :=
+         match hs with [] => true | (_, hb) :: r => go hb && goh r end) hs
+  end.
+Definition all_fall_through (l : list stm) : bool := forallb falls_through l.
 
 (* -------------------------------------------------- (b) the interpreter *)
 Definition cnt : Type := (nat * nat * nat)%type.   (* events, ifs, returns *)
@@ -258,6 +285,7 @@ Section Apply.
   Variable len : Z.                                (* file length *)
   Variable pos0 : Z.                               (* position on entry = orig_offset *)
   Variable o : outcome.                            (* what seeker.run() does *)
+  Variable destructive : bool.                     (* the keyword argument *)
 
   Definition ap_state : Type := (Z * Z)%type.      (* position, new_offset *)
   Definition ap_call (k : nat) (e : ev) (st : ap_state) : ires ap_state :=
@@ -276,9 +304,13 @@ Section Apply.
         else INormal st
     | _ => INormal st
     end.
-  (* destructive, new_offset not None: the first test of the try body is
-     false; the second (the cache write) has no effect on the position *)
-  Definition ap_guard (k : nat) (st : ap_state) : bool := false.
+  (* new_offset is not None: the first test of the try body is `not
+     destructive`; the second (the cache write) has no effect on the position *)
+  Definition ap_guard (k : nat) (st : ap_state) : bool :=
+    match k with
+    | O => negb destructive   (* new_offset is None or not destructive *)
+    | _ => false
+    end.
 
   Definition ap_interp (tree : list stm) : option Z :=
     match interp_list ap_state (is_call ["fd_seek"]) ap_call ap_guard None
